@@ -129,6 +129,29 @@ def r_duc(xs, ts, term, tt, p, m):
 r_duc_cmp = r_duc
 
 
+def _near(a, b, p):
+    return -p <= a - b <= p
+
+
+def r_duc_near(xs, ts, term, tt, p, m):
+    """non-transitive comparer |a-b| <= p: an element is compared with the last *emitted* one (Rx semantics)"""
+    out, cur, has = [], None, False
+    for x, t in zip(xs, ts):
+        if not has or not _near(cur, x, p):
+            out.append((t, x))
+            cur, has = x, True
+    return _elems(out, term, tt)
+
+
+def r_distinct_near(xs, ts, term, tt, p, m):
+    """non-transitive comparer: an element is emitted iff it is not 'equal' to any previously emitted one"""
+    out = []
+    for x, t in zip(xs, ts):
+        if not any(_near(y, x, p) for _, y in out):
+            out.append((t, x))
+    return _elems(out, term, tt)
+
+
 def r_pairwise(xs, ts, term, tt, p, m):
     return _elems([(ts[i + 1], (xs[i], xs[i + 1])) for i in range(len(xs) - 1)], term, tt)
 
@@ -225,6 +248,8 @@ OPS = {
     "distinct_until_changed": (lambda p, m: ops.distinct_until_changed(lambda x: x % m), r_duc),
     "distinct_until_changed_cmp": (
         lambda p, m: ops.distinct_until_changed(None, lambda a, b: (a - b) % m == 0), r_duc_cmp),
+    "distinct_until_changed_near": (lambda p, m: ops.distinct_until_changed(None, lambda a, b: _near(a, b, p)), r_duc_near),
+    "distinct_near": (lambda p, m: ops.distinct(None, lambda a, b: _near(a, b, p)), r_distinct_near),
     "pairwise": (lambda p, m: ops.pairwise(), r_pairwise),
     "start_with": (lambda p, m: ops.start_with(p, m), r_start_with),
     "default_if_empty": (lambda p, m: ops.default_if_empty(p), r_default_if_empty),
@@ -396,10 +421,10 @@ BOUNDS = {"quick": "N<=3 elements, values in [0,3], gaps in [0,2] ticks (0 = sam
           "thorough": "N<=4 elements (falsy domain N<=3), otherwise as quick"}
 ASSUMES = ["Tick/Span time stub: TestScheduler.to_datetime/to_timedelta/to_seconds replaced by int wrappers (DESIGN §2.1); "
            "every confirmed instance is also sampled concretely on the stock TestScheduler",
-           "user callbacks are the linear families x>=p, x<p, (x+i)%m==0, 2x+p, x%m, (a-b)%m==0",
+           "user callbacks are the families x>=p, x<p, (x+i)%m==0, 2x+p, x%m, (a-b)%m==0 and the non-transitive comparer |a-b|<=p",
            "take(0): only 'completes without elements' is required (no input determines its time)"]
 MANIFEST = {
-    "text": "Bounded symbolic model checking: for each of the 29 element-wise operator forms and each input length, the real operator "
+    "text": "Bounded symbolic model checking: for each of the 31 element-wise operator forms and each input length, the real operator "
             "runs on a hot test observable whose values, gaps, terminal kind/time and operator parameter are solver variables; the "
             "recorded (time, notification) list is compared with a list-computation reference model; CrossHair exhausts the path tree "
             "('Confirmed over all paths'), so the claim holds for every value within the bounds, not for samples.",
